@@ -145,6 +145,9 @@ fn judge_program(ctx: &mut WorkerCtx, p: &Plan, code: &[u8]) {
                             let outcome = if r0.panicked.is_none() && log0 == expected && r0.finished != Some(false) {
                                 let (r, log) = run(Mode::Execute);
                                 IsoOutcome::Ran(diff::IsoRun { finished: None, panicked: r.panicked.or(r.err.map(|e| format!("returned Err {e:?}"))), canary_bad: 0, log })
+                            } else if !diff::may_confirm_hang() {
+                                // enough wall-clock confirmations in this worker: the limited twin is the evidence
+                                IsoOutcome::Ran(diff::IsoRun { finished: None, panicked: r0.panicked.clone(), canary_bad: 0, log: log0.clone() })
                             } else if !present {
                                 // isolated run without an input object
                                 match crate::framework::isolated(1500, || {
